@@ -13,6 +13,8 @@ package json
 // jdepth: ghost, the number of containers currently open. The level argument equals the
 // nesting depth, so the recursion cap refuses exactly the documents nested deeper than the cap.
 //@ ghostvar jdepth int
+// c10_due: ghost, a member whose path matched a value-less query has been consumed completely
+//@ ghostvar c10_due bool
 
 //@ pool parserPool invariant p.maxRecursion == maxRecursion
 
@@ -66,6 +68,7 @@ package json
 //@   loop 3 decreases len(b)
 
 //@ func json.(*parserState).consumeArray
+//@   ensures [C10_mono] old(p.querySatisfied) ==> p.querySatisfied
 //@   requires [C08_depth] lvl == jdepth + 1
 //@   ghost entry: jdepth = jdepth + 1
 //@   ghost return: jdepth = jdepth - 1
@@ -83,9 +86,15 @@ package json
 //@   decreases p.maxRecursion + 9 - lvl, 1
 //@   loop 1 invariant 0 <= n && n <= len(b) && p.ib == old(p.ib) + n
 //@   loop 1 invariant [C10_stack] len(p.currPath) == old(len(p.currPath)) + 1 && p.currPath[:len(p.currPath)-1] == old(p.currPath)
+//@   loop 1 invariant [C10_mono_inv] old(p.querySatisfied) ==> p.querySatisfied
 //@   loop 1 decreases len(b) - n
 
 //@ func json.(*parserState).consumeObject
+//@   ghost entry: c10_due = false
+//@   ghost after consumeValue: c10_due = c10_due || ($ret1 && queryMatched != -1 && len(qs[queryMatched].SearchVals) == 0)
+//@   ensures [C10_decided] c10_due ==> p.querySatisfied
+//@   loop 1 invariant [C10_due_inv] c10_due ==> p.querySatisfied
+//@   ensures [C10_mono] old(p.querySatisfied) ==> p.querySatisfied
 //@   requires [C08_depth] lvl == jdepth + 1
 //@   ghost entry: jdepth = jdepth + 1
 //@   ghost return: jdepth = jdepth - 1
@@ -103,9 +112,12 @@ package json
 //@   decreases p.maxRecursion + 9 - lvl, 1
 //@   loop 1 invariant 0 <= n && n <= len(b) && p.ib == old(p.ib) + n
 //@   loop 1 invariant [C10_stack] p.currPath == old(p.currPath)
+//@   loop 1 invariant [C10_mono_inv] old(p.querySatisfied) ==> p.querySatisfied
 //@   loop 1 decreases len(b) - n
+//@   loop 2 invariant [C10_due_inv2] (c10_due ==> p.querySatisfied) && (old(p.querySatisfied) ==> p.querySatisfied)
 
 //@ func json.(*parserState).consumeValue
+//@   ensures [C10_mono] old(p.querySatisfied) ==> p.querySatisfied
 //@   requires [C08_depth] lvl == jdepth
 //@   ensures [C08_depth_restored] jdepth == old(jdepth)
 //@   requires ibOK(p, b)
@@ -149,3 +161,17 @@ package json
 //@ func json.LooksLikeObjectOrArray
 //@   ensures [C09_looks] result ==> (exists i :: 0 <= i && i < len(raw) && (raw[i] == '{' || raw[i] == '[') && (forall j :: 0 <= j && j < i ==> isSpaceB(raw[j])))
 //@   loop 1 invariant [C09_looks_inv] forall j :: 0 <= j && j <= rangeindex ==> isSpaceB(raw[j])
+
+// --- C10: the query engine -----------------------------------------------------------------------
+//@ spec pathEq(a, b) = len(a) == len(b) && (forall i :: 0 <= i && i < len(a) ==> a[i] == b[i])
+
+//@ func json.eq
+//@   ensures [C10_eq] result == pathEq(path1, path2)
+//@   loop 1 invariant [C10_eq_inv] forall j :: 0 <= j && j <= rangeindex ==> path1[j] == path2[j]
+
+// first query whose search path is the current path
+//@ func json.queryPathMatch
+//@   ensures [C10_qpm_range] -1 <= result && result < len(qs)
+//@   ensures [C10_qpm_hit] result >= 0 ==> pathEq(qs[result].SearchPath, path) && (forall k :: 0 <= k && k < result ==> !pathEq(qs[k].SearchPath, path))
+//@   ensures [C10_qpm_miss] result == -1 ==> (forall k :: 0 <= k && k < len(qs) ==> !pathEq(qs[k].SearchPath, path))
+//@   loop 1 invariant [C10_qpm_inv] forall k :: 0 <= k && k <= rangeindex ==> !pathEq(qs[k].SearchPath, path)
